@@ -1096,6 +1096,33 @@ impl Checker {
                         None => Failure::new("C03", "dfs-file", msg),
                     });
                 }
+                // file-scoped with depth limit = the same filtered preorder, truncated (an element at the limit that is not
+                // in the file must not hide the siblings that follow it)
+                for d in 1..=4usize {
+                    let got: Vec<(usize, Element)> = f.elements_dfs_with_max_depth(d).collect();
+                    let wantd: Vec<&&(usize, Element, Option<usize>)> = want.iter().filter(|x| x.0 <= d).collect();
+                    if !(got.len() == wantd.len() && got.iter().zip(wantd.iter()).all(|((gd, ge), (wd, we, _))| gd == wd && ge == we)) {
+                        let msg = format!("m{} file f{}: ArxmlFile::elements_dfs_with_max_depth({d}) yields {} entries, the truncated file view has {}", s.k, self.w.files.iter().position(|x| *x == f).unwrap_or(usize::MAX), got.len(), wantd.len());
+                        out.push(match files_sig {
+                            Some((c03, _)) => Failure::known("C03", c03, msg),
+                            None => Failure::new("C03", "dfs-file-depth", msg),
+                        });
+                    }
+                }
+            }
+            // element-scoped with depth limit, for the first elements of the model
+            for (i, (d0, e, _)) in pre.iter().enumerate().take(12) {
+                let mut j = i + 1;
+                while j < pre.len() && pre[j].0 > *d0 {
+                    j += 1;
+                }
+                for d in 1..=3usize {
+                    let got: Vec<(usize, Element)> = e.elements_dfs_with_max_depth(d).collect();
+                    let want: Vec<&(usize, Element, Option<usize>)> = pre[i..j].iter().filter(|x| x.0 - d0 <= d).collect();
+                    if !(got.len() == want.len() && got.iter().zip(want.iter()).all(|((gd, ge), (wd, we, _))| *gd + d0 == *wd && ge == we)) {
+                        out.push(Failure::new("C03", "dfs-elem-depth", format!("{}: elements_dfs_with_max_depth({d}) yields {} entries, the truncated subtree has {}", self.nm(e), got.len(), want.len())));
+                    }
+                }
             }
         }
     }
